@@ -100,24 +100,35 @@ func resolveRegistry(w *World) *registry {
 			}
 			return true
 		})
-		// duplicate test: comma-ok lookup in services + AlreadyRegisteredError literal
-		hasLookup, hasErr := false, false
+	}
+	// duplicate test: the function that builds AlreadyRegisteredError and (itself or
+	// through a private helper) looks an entry up in services with comma-ok
+	for _, fi := range w.FuncsOf(w.Godi) {
+		info := fi.Pkg.TypesInfo
+		hasErr := false
 		ast.Inspect(fi.Decl.Body, func(x ast.Node) bool {
-			switch s := x.(type) {
-			case *ast.AssignStmt:
-				if len(s.Lhs) == 2 && len(s.Rhs) == 1 {
-					if ix, ok := unparen(s.Rhs[0]).(*ast.IndexExpr); ok && fieldOf(info, ix.X) == rg.services {
-						hasLookup = true
-					}
-				}
-			case *ast.CompositeLit:
+			if s, ok := x.(*ast.CompositeLit); ok {
 				if tv, ok := info.Types[s]; ok && isNamedType(tv.Type, modPath, "AlreadyRegisteredError") {
 					hasErr = true
 				}
 			}
 			return true
 		})
-		if hasLookup && hasErr && !strings.HasPrefix(fi.Obj.Name(), "Contains") {
+		if !hasErr || strings.HasPrefix(fi.Obj.Name(), "Contains") {
+			continue
+		}
+		hasLookup := false
+		for _, g := range w.Within(fi, 2) {
+			ast.Inspect(g.Decl.Body, func(x ast.Node) bool {
+				if s, ok := x.(*ast.AssignStmt); ok && len(s.Lhs) == 2 && len(s.Rhs) == 1 {
+					if ix, ok := unparen(s.Rhs[0]).(*ast.IndexExpr); ok && fieldOf(g.Pkg.TypesInfo, ix.X) == rg.services {
+						hasLookup = true
+					}
+				}
+				return true
+			})
+		}
+		if hasLookup {
 			rg.check = fi
 		}
 	}
@@ -227,33 +238,44 @@ func checkC17(w *World, r *Report) {
 		fi := rg.check
 		r.Analysed(fi)
 		info := fi.Pkg.TypesInfo
-		// the exists variable(s) and the hit edge
+		// the exists variable(s) and the hit edge (the lookup may live in a private predicate helper)
 		existsObjs := map[types.Object]bool{}
-		ast.Inspect(fi.Decl.Body, func(x ast.Node) bool {
-			if as, ok := x.(*ast.AssignStmt); ok && len(as.Lhs) == 2 && len(as.Rhs) == 1 {
-				if ix, ok := unparen(as.Rhs[0]).(*ast.IndexExpr); ok {
-					if fv := fieldOf(info, ix.X); fv == rg.services || (fv == nil && isMapOfTypeKey(info, ix.X)) {
-						existsObjs[objOf(info, as.Lhs[1])] = true
+		helperSet := map[*FuncInfo]bool{}
+		for _, g := range w.Within(fi, 2) {
+			ginfo := g.Pkg.TypesInfo
+			ast.Inspect(g.Decl.Body, func(x ast.Node) bool {
+				if as, ok := x.(*ast.AssignStmt); ok && len(as.Lhs) == 2 && len(as.Rhs) == 1 {
+					if ix, ok := unparen(as.Rhs[0]).(*ast.IndexExpr); ok {
+						if fv := fieldOf(ginfo, ix.X); fv == rg.services || (fv == nil && isMapOfTypeKey(ginfo, ix.X)) {
+							existsObjs[objOf(ginfo, as.Lhs[1])] = true
+							helperSet[g] = true
+						}
 					}
 				}
-			}
-			return true
-		})
+				return true
+			})
+		}
 		fl := w.FlowOf(fi)
-		sol := fl.Solve(Spec{Must: true, Edge: func(b *cfg.Block, i int, cond ast.Expr, in Facts) (gen, kill []string) {
-			if cond == nil {
+		// may-analysis: "an existing entry was found" reaches an exit only if that exit reports it
+		sol := fl.Solve(Spec{Must: false, Global: globalPrefixes("hit"), Stop: func(h *FuncInfo) bool { return !helperSet[h] },
+			Edge: func(b *cfg.Block, i int, cond ast.Expr, in Facts) (gen, kill []string) {
+				if cond == nil {
+					return
+				}
+				c := unparen(cond)
+				neg := false
+				if u, ok := c.(*ast.UnaryExpr); ok && u.Op == token.NOT {
+					c, neg = unparen(u.X), true
+				}
+				if existsObjs[objOf(info, c)] {
+					if (i == 0) != neg {
+						gen = append(gen, "hit")
+					} else {
+						kill = append(kill, "hit")
+					}
+				}
 				return
-			}
-			c := unparen(cond)
-			neg := false
-			if u, ok := c.(*ast.UnaryExpr); ok && u.Op == token.NOT {
-				c, neg = unparen(u.X), true
-			}
-			if existsObjs[objOf(info, c)] && (i == 0) != neg {
-				gen = append(gen, "hit")
-			}
-			return
-		}})
+			}})
 		bad, n := "", 0
 		for _, ex := range fl.Exits() {
 			if !sol.AtExit(ex).Has("hit") {
@@ -285,17 +307,11 @@ func checkC17(w *World, r *Report) {
 
 		// the key tested is built from the descriptor being registered
 		keyOK := false
-		ast.Inspect(fi.Decl.Body, func(x ast.Node) bool {
-			if cl, ok := x.(*ast.CompositeLit); ok {
-				if tv, ok := info.Types[cl]; ok && isNamedType(tv.Type, modPath, "TypeKey") {
-					f := compositeFields(cl)
-					if isFieldNamed(info, f["Type"], "Type") && isFieldNamed(info, f["Key"], "Key") && exprStr(selBase(f["Type"])) == exprStr(selBase(f["Key"])) {
-						keyOK = true
-					}
-				}
+		for _, kc := range keyConsIn(w, info, fi.Decl.Body) {
+			if kc.typ == "TypeKey" && kc.f["Type"].sel == "Type" && kc.f["Key"].sel == "Key" && kc.f["Type"].baseStr != "" && kc.f["Type"].baseStr == kc.f["Key"].baseStr {
+				keyOK = true
 			}
-			return true
-		})
+		}
 		r.Check(keyOK, "R17.2", fi.Name()+"#tested-key", fi.Decl.Pos(), false, "the tested key is TypeKey{descriptor.Type, descriptor.Key}", "the duplicate test does not use TypeKey{Type, Key} of the descriptor being registered")
 	}
 	// insertion sites
@@ -334,7 +350,7 @@ func checkC17(w *World, r *Report) {
 			if !ok || fieldOf(info, ix.X) != rg.groups {
 				return true
 			}
-			c, isC := unparen(as.Rhs[0]).(*ast.CallExpr)
+			c, isC := resolveLocal(info, fi.Decl.Body, as.Rhs[0], 2).(*ast.CallExpr)
 			good := isC && exprStr(c.Fun) == "append" && len(c.Args) == 2 && exprStr(c.Args[0]) == exprStr(as.Lhs[0]) && !c.Ellipsis.IsValid()
 			r.Check(good, "R17.3", fi.Name()+"#group-append", as.Pos(), false,
 				"a member is appended at the end of its group (call order is kept)",
@@ -870,11 +886,61 @@ func checkSnapshot(w *World, r *Report, rg *registry) {
 	}
 }
 
-// fresh2: e is a local whose every definition is a make(...) call, or itself fresh.
+// fresh2: e is a local whose every definition is a make(...) call (or a call
+// that returns a fresh container: a private helper whose result at that position
+// is fresh, maps.Clone / slices.Clone), or itself such a call.
 func fresh2(info *types.Info, fi *FuncInfo, e ast.Expr) (bool, string) {
+	return freshDepth(info, fi, e, 2)
+}
+
+// freshCall: the idx-th result of call c is a fresh container.
+func freshCall(info *types.Info, c *ast.CallExpr, idx int, depth int) (bool, string) {
+	if id, ok := unparen(c.Fun).(*ast.Ident); ok && id.Name == "make" {
+		return true, "make"
+	}
+	cal := callee(info, c)
+	if isFunc(cal, "maps", "", "Clone") || isFunc(cal, "slices", "", "Clone") {
+		return true, cal.Name()
+	}
+	if cal == nil || depth == 0 || theWorld == nil {
+		return false, ""
+	}
+	t := theWorld.Decls[cal]
+	if t == nil || cal.Exported() {
+		return false, ""
+	}
+	okAll, any := true, false
+	ast.Inspect(t.Decl.Body, func(x ast.Node) bool {
+		if _, isLit := x.(*ast.FuncLit); isLit {
+			return false
+		}
+		if ret, ok := x.(*ast.ReturnStmt); ok {
+			any = true
+			if idx >= len(ret.Results) {
+				okAll = false
+				return true
+			}
+			if ok, _ := freshDepth(t.Pkg.TypesInfo, t, ret.Results[idx], depth-1); !ok {
+				okAll = false
+			}
+		}
+		return true
+	})
+	if okAll && any {
+		return true, "built by " + t.Name()
+	}
+	return false, ""
+}
+
+func freshDepth(info *types.Info, fi *FuncInfo, e ast.Expr, depth int) (bool, string) {
 	e = unparen(e)
 	if fv := fieldOf(info, e); fv != nil {
 		return false, "a field of " + exprStr(selBase(e))
+	}
+	if c, ok := e.(*ast.CallExpr); ok {
+		if ok, why := freshCall(info, c, 0, depth); ok {
+			return true, why
+		}
 	}
 	o := objOf(info, e)
 	if o == nil {
@@ -887,7 +953,25 @@ func fresh2(info *types.Info, fi *FuncInfo, e ast.Expr) (bool, string) {
 	why := ""
 	ast.Inspect(fi.Decl.Body, func(x ast.Node) bool {
 		as, ok := x.(*ast.AssignStmt)
-		if !ok || len(as.Lhs) != len(as.Rhs) {
+		if !ok {
+			return true
+		}
+		if len(as.Lhs) != len(as.Rhs) {
+			// v1, v2 := helper()
+			if len(as.Rhs) == 1 {
+				if c, isC := unparen(as.Rhs[0]).(*ast.CallExpr); isC {
+					for i, l := range as.Lhs {
+						if objOf(info, l) != o {
+							continue
+						}
+						any = true
+						if ok, _ := freshCall(info, c, i, depth); !ok {
+							allMake = false
+							why = "local " + o.Name() + " is assigned result " + fmt.Sprint(i) + " of " + exprStr(c.Fun)
+						}
+					}
+				}
+			}
 			return true
 		}
 		for i, l := range as.Lhs {
@@ -898,7 +982,7 @@ func fresh2(info *types.Info, fi *FuncInfo, e ast.Expr) (bool, string) {
 			rhs := unparen(as.Rhs[i])
 			c, isC := rhs.(*ast.CallExpr)
 			if isC {
-				if id, ok := unparen(c.Fun).(*ast.Ident); ok && id.Name == "make" {
+				if ok, _ := freshCall(info, c, 0, depth); ok {
 					continue
 				}
 				if id, ok := unparen(c.Fun).(*ast.Ident); ok && id.Name == "append" && len(c.Args) > 0 && objOf(info, c.Args[0]) == o {
